@@ -54,3 +54,15 @@ impl ServerHandle {
         }
     }
 }
+
+#[cfg(actix_net_verif)]
+impl ServerHandle {
+    /// Verification hook: delivers the command `ServerInner::map_signal` produces for `signum`, as
+    /// the signal stream of the server's event multiplexer would.
+    pub fn verif_deliver_signal(&self, signum: i32) -> bool {
+        match crate::server::verif_server::command_for_signal(signum) {
+            Some(cmd) => self.cmd_tx.send(cmd).is_ok(),
+            None => false,
+        }
+    }
+}
